@@ -4,9 +4,9 @@
 (* held): case, model, call, ret, plan_cache, hang, end.                        *)
 EXTENDS TraceLib, RunRequests
 
-VARIABLES l, bad, m, pend, ncall, ninvalid, nhits, nmisses
+VARIABLES l, bad, m, pend, mode, ncall, ninvalid, nhits, nmisses
 
-Init == /\ l = 1 /\ bad = NoBad /\ m = [ev |-> "none"] /\ pend = <<>>
+Init == /\ l = 1 /\ bad = NoBad /\ m = [ev |-> "none"] /\ pend = <<>> /\ mode = "seq"
         /\ ncall = 0 /\ ninvalid = 0 /\ nhits = 0 /\ nmisses = 0
 
 e == Rec[l]
@@ -18,13 +18,14 @@ Counters == <<ncall, ninvalid, nhits, nmisses>>
 
 OutsOf(call) == IF call.api = "run_one" THEN <<m.output_ids[1]>> ELSE call.outs
 
-CaseEv == /\ e.ev \in {"case", "end"} /\ pend' = <<>> /\ UNCHANGED <<bad, m, Counters>>
-ModelEv == /\ e.ev = "model" /\ m' = e /\ pend' = <<>> /\ UNCHANGED <<bad, Counters>>
+CaseEv == /\ e.ev \in {"case", "end"} /\ pend' = <<>> /\ mode' = (IF e.ev = "case" THEN e.mode ELSE mode)
+          /\ UNCHANGED <<bad, m, Counters>>
+ModelEv == /\ e.ev = "model" /\ m' = e /\ pend' = <<>> /\ UNCHANGED <<bad, mode, Counters>>
 CallEv == /\ e.ev = "call"
           /\ pend' = IF e.tt \in DOMAIN pend THEN [pend EXCEPT ![e.tt] = e] ELSE pend @@ (e.tt :> e)
           /\ ncall' = ncall + 1
           /\ ninvalid' = ninvalid + (IF Invalid(G, m, e, OutsOf(e)) THEN 1 ELSE 0)
-          /\ UNCHANGED <<bad, m, nhits, nmisses>>
+          /\ UNCHANGED <<bad, m, mode, nhits, nmisses>>
 
 \* expected outputs of a valid `run` request by naive evaluation
 GivenIdx(call) == [i \in {call.ins[k].id : k \in DOMAIN call.ins} |->
@@ -40,15 +41,17 @@ RetEv ==
          outs == OutsOf(c)
          inv == Invalid(G, m, c, outs)
          sig26 == [prop |-> "C26", api |-> c.api, class |-> c.class, outcome |-> e.kind]
-         sig22a == [prop |-> "C22", api |-> c.api, check |-> "differs_from_call_made_alone",
+         \* in a sequential history the only thing that can make a call differ from the same call made
+         \* alone on a fresh model is an earlier run (C25); with several threads it is concurrency (C22)
+         sig22a == [prop |-> IF mode = "seq" THEN "C25" ELSE "C22", api |-> c.api, check |-> "differs_from_call_made_alone",
                     outcome |-> e.kind, alone |-> e.alone_kind]
-         sig22b == [prop |-> "C22", api |-> c.api, check |-> "differs_from_naive_evaluation", outcome |-> e.kind]
+         sig22b == [prop |-> IF mode = "seq" THEN "C25" ELSE "C22", api |-> c.api, check |-> "differs_from_naive_evaluation", outcome |-> e.kind]
          rec == [call |-> c, ret |-> e]
          b1 == Flag(bad, inv => e.kind = "err", sig26, rec)                       \* C26
          b2 == Flag(b1, e.kind = e.alone_kind /\ e.outs = e.alone_outs, sig22a, rec)   \* C22 (a)
          b3 == Flag(b2, (~inv /\ c.api = "run" /\ e.kind = "ok") => Got(e) = Expected(c), sig22b, rec)
      IN bad' = b3
-  /\ UNCHANGED <<m, pend, Counters>>
+  /\ UNCHANGED <<m, pend, mode, Counters>>
 
 \* The plan handed out under the cache mutex must be a correct plan for *this* request.
 PlanCacheEv ==
@@ -61,12 +64,12 @@ PlanCacheEv ==
                  check |-> FailClass(G, ins, outs, FALSE, e.subgraph, res)]
      IN bad' = Flag(bad, PlannerOk(G, ins, outs, FALSE, e.subgraph, res), sig, [event |-> e])
   /\ nhits' = nhits + (IF e.hit THEN 1 ELSE 0) /\ nmisses' = nmisses + (IF e.hit THEN 0 ELSE 1)
-  /\ UNCHANGED <<m, pend, ncall, ninvalid>>
+  /\ UNCHANGED <<m, pend, mode, ncall, ninvalid>>
 
 \* A call that never returned (the case was killed by the watchdog).
 HangEv == /\ e.ev = "hang"
           /\ bad' = Flag(bad, FALSE, [prop |-> "C22", api |-> "run", check |-> "call_blocked_or_process_died", outcome |-> e.kind], [event |-> e])
-          /\ pend' = <<>> /\ UNCHANGED <<m, Counters>>
+          /\ pend' = <<>> /\ UNCHANGED <<m, mode, Counters>>
 
 Next == /\ l <= NRec /\ l' = l + 1
         /\ (CaseEv \/ ModelEv \/ CallEv \/ RetEv \/ PlanCacheEv \/ HangEv)
